@@ -486,6 +486,8 @@ pub struct Part {
 pub enum ReplayInput {
     Choices(Vec<u16>),
     Text(String),
+    /// A raw libFuzzer artifact.
+    Bytes(Vec<u8>),
 }
 
 pub struct CheckDef {
@@ -498,6 +500,8 @@ pub struct CheckDef {
     pub idle_limit_s: u64,
     /// The check drives the real CLI: the parent builds it from the current tree first.
     pub needs_cli: bool,
+    /// libFuzzer campaign run after the workers in the thorough tier: (target, runs per job).
+    pub fuzz: Option<(&'static str, u64)>,
 }
 
 // ---------------------------------------------------------------------------------------------
@@ -758,6 +762,20 @@ pub fn parent_main(def: &CheckDef, tier: Tier, seed: u64) -> i32 {
         }
     }
 
+    // Coverage-guided campaign (thorough tier only).
+    let mut fuzz_report = Value::Null;
+    if let (Some((target, runs)), Tier::Thorough) = (def.fuzz, tier) {
+        let (report, crashes) = run_fuzz_campaign(def.id, target, runs, seed);
+        if let Some(e) = report["error"].as_str() {
+            harness_errors.push(format!("libFuzzer campaign: {e}"));
+        }
+        total.evaluations += report["executions"].as_u64().unwrap_or(0);
+        for (path, text) in crashes {
+            total.violations.push(json!({"part": "fuzz", "sig": Value::Null, "msg": format!("libFuzzer target {target} crashed (oracle violated or panic); artifact {path}"), "input": text, "choices": Value::Null}));
+        }
+        fuzz_report = report;
+    }
+
     // Classify aborts.
     let mut abort_violations: Vec<Value> = vec![];
     for a in &aborts {
@@ -869,6 +887,7 @@ pub fn parent_main(def: &CheckDef, tier: Tier, seed: u64) -> i32 {
             "notes": total.notes,
             "parts": def.parts.iter().map(|p| json!({"name": p.name, "rounds_per_shard": p.rounds})).collect::<Vec<_>>(),
             "shards": NSHARDS,
+            "libfuzzer": fuzz_report,
         },
         "assumptions": def.assumptions,
         "wall_s": (wall * 100.0).round() / 100.0,
@@ -902,8 +921,9 @@ pub fn parent_main(def: &CheckDef, tier: Tier, seed: u64) -> i32 {
 pub fn replay_main(def: &CheckDef, path: &str) -> i32 {
     install_quiet_panic_hook();
     colored::control::set_override(false);
-    let text = match std::fs::read_to_string(path) {
-        Ok(t) => t,
+    let raw = std::fs::read(path).unwrap_or_default();
+    let text = match std::fs::read(path) {
+        Ok(t) => String::from_utf8_lossy(&t).into_owned(),
         Err(e) => {
             eprintln!("harness error: cannot read {path}: {e}");
             return 2;
@@ -911,9 +931,9 @@ pub fn replay_main(def: &CheckDef, path: &str) -> i32 {
     };
     let v: Value = match serde_json::from_str(&text) {
         Ok(v) => v,
-        Err(e) => {
-            eprintln!("harness error: {path} is not JSON: {e}");
-            return 2;
+        Err(_) => {
+            // A raw libFuzzer artifact: replay its bytes through the check's `fuzz` part.
+            json!({"part": "fuzz", "raw": true})
         }
     };
     let part_name = v["part"].as_str().unwrap_or("");
@@ -955,7 +975,9 @@ pub fn replay_main(def: &CheckDef, path: &str) -> i32 {
         println!("replay: the enumeration no longer fails on this input");
         return 0;
     };
-    let input = if let Some(ch) = v["choices"].as_array() {
+    let input = if v["raw"].as_bool() == Some(true) {
+        ReplayInput::Bytes(raw)
+    } else if let Some(ch) = v["choices"].as_array() {
         ReplayInput::Choices(ch.iter().map(|x| x.as_u64().unwrap_or(0) as u16).collect())
     } else {
         ReplayInput::Text(v["input"].as_str().unwrap_or("").to_owned())
@@ -985,4 +1007,84 @@ pub fn replay_main(def: &CheckDef, path: &str) -> i32 {
             }
         }
     }
+}
+
+/// Run `cargo +nightly fuzz run <target>` with 16 jobs of `runs` executions each, from a fresh
+/// corpus seeded with the repository's examples and the token spellings. Returns the report for
+/// the evidence file and the crashing inputs (copied under /verif/replays/<id>/).
+fn run_fuzz_campaign(id: &str, target: &str, runs: u64, seed: u64) -> (Value, Vec<(String, String)>) {
+    let root = verif_root();
+    let work = root.join(".work").join("fuzz").join(target);
+    let _ = std::fs::remove_dir_all(&work);
+    let corpus = work.join("corpus");
+    let artifacts = work.join("artifacts");
+    if std::fs::create_dir_all(&corpus).is_err() || std::fs::create_dir_all(&artifacts).is_err() {
+        return (json!({"error": "cannot create the work directory"}), vec![]);
+    }
+    let repo = std::env::var("GRAM_REPO_RUNTIME").unwrap_or_else(|_| crate::GRAM_REPO.to_owned());
+    if let Ok(dir) = std::fs::read_dir(format!("{repo}/examples")) {
+        for e in dir.filter_map(Result::ok) {
+            let _ = std::fs::copy(e.path(), corpus.join(e.file_name()));
+        }
+    }
+    let spellings = "x = 1; y : int = x + 2\nif x <= y then (z : type) => z else {w : bool} -> w # c\n f (g 3) * - 4 / 5 == 6 >= 7 > 8 < 9 true false _";
+    let _ = std::fs::write(corpus.join("spellings"), spellings);
+    let dict = work.join("dict");
+    let _ = std::fs::write(&dict, ["bool", "else", "false", "if", "int", "then", "true", "type", "=>", "->", "==", "<=", ">=", ";", "#", "_", "(", ")", "{", "}", ":"].iter().map(|k| format!("\"{k}\"\n")).collect::<String>());
+    let out = Command::new("cargo")
+        .args(["+nightly", "fuzz", "run", target, "--target-dir"])
+        .arg(root.join(".target").join("fuzz"))
+        .arg("--fuzz-dir")
+        .arg(root.join("harness").join("fuzz"))
+        .arg(&corpus)
+        .arg("--")
+        .arg(format!("-runs={runs}"))
+        .arg(format!("-seed={}", if seed == 0 { 1 } else { seed % 4_000_000_000 }))
+        .args(["-len_control=0", "-max_len=600", "-jobs=16", "-workers=16", "-print_final_stats=1", "-timeout=60", "-rss_limit_mb=4096"])
+        .arg(format!("-dict={}", dict.display()))
+        .arg(format!("-artifact_prefix={}/", artifacts.display()))
+        .current_dir(&work)
+        .env("CARGO_NET_OFFLINE", "true")
+        .env("GRAM_REPO", &repo)
+        .stdin(Stdio::null())
+        .output();
+    let out = match out {
+        Ok(o) => o,
+        Err(e) => return (json!({"error": format!("cannot run cargo fuzz: {e}")}), vec![]),
+    };
+    // Executions are reported in the per-job logs.
+    let mut executions = 0u64;
+    let mut jobs = 0u64;
+    if let Ok(dir) = std::fs::read_dir(&work) {
+        for e in dir.filter_map(Result::ok) {
+            let name = e.file_name().to_string_lossy().into_owned();
+            if name.starts_with("fuzz-") && name.ends_with(".log") {
+                jobs += 1;
+                if let Ok(log) = std::fs::read_to_string(e.path()) {
+                    for line in log.lines() {
+                        if let Some(n) = line.strip_prefix("stat::number_of_executed_units:") {
+                            executions += n.trim().parse::<u64>().unwrap_or(0);
+                        }
+                    }
+                }
+            }
+        }
+    }
+    let mut crashes = vec![];
+    if let Ok(dir) = std::fs::read_dir(&artifacts) {
+        let replays = root.join("replays").join(id);
+        let _ = std::fs::create_dir_all(&replays);
+        for e in dir.filter_map(Result::ok) {
+            let bytes = std::fs::read(e.path()).unwrap_or_default();
+            let dest = replays.join(format!("fuzz-{}", e.file_name().to_string_lossy()));
+            let _ = std::fs::write(&dest, &bytes);
+            crashes.push((dest.display().to_string(), format!("{:?}", String::from_utf8_lossy(&bytes))));
+        }
+    }
+    let mut report = json!({"target": target, "jobs": jobs, "runs_per_job": runs, "executions": executions, "crashes": crashes.len(), "seed_corpus": "examples + token spellings + dictionary"});
+    if executions == 0 && crashes.is_empty() {
+        report["error"] = json!(format!("no executions recorded; cargo fuzz said: {}", truncate(&String::from_utf8_lossy(&out.stderr), 600)));
+    }
+    let _ = std::fs::remove_dir_all(&work);
+    (report, crashes)
 }
